@@ -690,33 +690,62 @@ class Host(utils.EventEmitter):
         # Create a future value to hold the eventual response
         assert self.pending_command is None
         assert self.pending_response is None
-        self.pending_response = asyncio.get_running_loop().create_future()
+        pending_response = asyncio.get_running_loop().create_future()
+        self.pending_response = pending_response
         self.pending_command = command
 
         response: (
             hci.HCI_Command_Complete_Event | hci.HCI_Command_Status_Event | None
         ) = None
+        sent = False
+        timed_out = False
         try:
             if self.transport_lost:
                 # Nothing would ever answer
                 raise TransportLostError('transport lost')
             self.send_hci_packet(command)
+            sent = True
             response = await asyncio.wait_for(
-                self.pending_response, timeout=response_timeout
+                pending_response, timeout=response_timeout
             )
             return response
         except asyncio.TimeoutError:
+            timed_out = True
             raise
         except Exception:
             logger.exception(color("!!! Exception while sending command:", "red"))
             raise
         finally:
-            self.pending_command = None
-            self.pending_response = None
-            if response is None or (
-                response.num_hci_command_packets and self.command_semaphore.locked()
+            if self.pending_response is not pending_response:
+                # The caller was cancelled and the response to its command has been
+                # accounted for since (see on_command_processed / on_transport_lost)
+                pass
+            elif (
+                sent
+                and pending_response.cancelled()
+                and not timed_out
+                and not self.transport_lost
             ):
-                self.command_semaphore.release()
+                # The caller was cancelled while its command is still outstanding at
+                # the controller: the command channel stays taken until the controller
+                # has answered that command (see on_command_processed)
+                logger.debug('caller cancelled, command still outstanding')
+            else:
+                if (
+                    response is None
+                    and pending_response.done()
+                    and not pending_response.cancelled()
+                    and pending_response.exception() is None
+                ):
+                    # Answered, but the caller was cancelled before it saw the answer
+                    response = pending_response.result()
+                self.pending_command = None
+                self.pending_response = None
+                if response is None or (
+                    response.num_hci_command_packets
+                    and self.command_semaphore.locked()
+                ):
+                    self.command_semaphore.release()
 
     @overload
     async def send_command(
@@ -1012,6 +1041,12 @@ class Host(utils.EventEmitter):
         self.transport_lost = True
         if self.pending_response and not self.pending_response.done():
             self.pending_response.set_exception(TransportLostError('transport lost'))
+        elif self.pending_response and self.pending_response.cancelled():
+            # The caller of the outstanding command was cancelled: nothing will answer
+            # that command any more, free the command channel
+            self.pending_command = None
+            self.pending_response = None
+            self.command_semaphore.release()
 
         # The links are gone with the transport: report them as disconnected so that
         # every layer drops its per-connection state and releases its waiters.
@@ -1150,7 +1185,7 @@ class Host(utils.EventEmitter):
     def on_command_processed(
         self, event: hci.HCI_Command_Complete_Event | hci.HCI_Command_Status_Event
     ):
-        if self.pending_response:
+        if self.pending_response and not self.pending_response.done():
             # Check that it is what we were expecting
             if self.pending_command is None:
                 logger.warning('!!! pending_command is None ')
@@ -1162,6 +1197,14 @@ class Host(utils.EventEmitter):
                 )
 
             self.pending_response.set_result(event)
+        elif self.pending_response:
+            # The caller of the outstanding command was cancelled: with this response
+            # the command is no longer outstanding and the command channel is free
+            logger.debug('response to a command whose caller was cancelled')
+            self.pending_command = None
+            self.pending_response = None
+            if event.num_hci_command_packets and self.command_semaphore.locked():
+                self.command_semaphore.release()
         else:
             logger.warning('!!! no pending response future to set')
             if event.num_hci_command_packets and self.command_semaphore.locked():
